@@ -56,7 +56,12 @@ def run_c18(rep, tier, seed):
                         b = get_direction(arg)
                     elif kind == "normal":
                         f, unit = scales[k]
-                        arg = V(*[float(x) * f for x in sc["arg"]], unit=unit)
+                        cvals = [float(x) * f for x in sc["arg"]]
+                        if k == 0 and i % 3 == 0:
+                            cvals = [int(x) if j % 2 == 0 else float(x) for j, x in enumerate(sc["arg"])]      # Python ints and floats mixed
+                        elif k == 0 and i % 3 == 1:
+                            cvals = [np.float32(x) for x in sc["arg"]]                                          # one element of a float32 field
+                        arg = V(*cvals, unit=unit)
                         b = get_direction(arg)
                     elif kind == "vectorbasis":
                         f, unit = scales[k]
